@@ -17,7 +17,24 @@ use crate::report::{Acc, Check, Tier};
 use crate::util::{self, guard, Guard};
 use crate::world;
 
-pub const CONSTRUCTIONS: [&str; 4] = ["Metablock::new", "builder", "from_raw_metadata(json)", "from_raw_metadata(canonical)"];
+pub const CONSTRUCTIONS: [&str; 6] = ["Metablock::new", "builder", "from_raw_metadata(json)", "from_raw_metadata(canonical)", "constructor", "LinkMetadataBuilder::signed"];
+
+/// The same value rebuilt through the plain constructors (`LinkMetadata::new`, `LayoutMetadata::new`).
+fn via_constructor(meta: &MetadataWrapper) -> in_toto::Result<MetadataWrapper> {
+    Ok(match meta.clone() {
+        MetadataWrapper::Link(l) => MetadataWrapper::Link(in_toto::models::LinkMetadata::new(l.name, l.materials, l.products, l.env, l.byproducts, l.command)?),
+        MetadataWrapper::Layout(l) => MetadataWrapper::Layout(in_toto::models::LayoutMetadata::new(l.expires, l.readme, l.keys, l.steps, l.inspect)),
+    })
+}
+
+/// The same link fed field by field into a fresh builder (`add_material` / `add_product` where
+/// the entry's description allows it), then `signed::<Json>` - the path `in_toto_run` takes.
+fn via_signed(meta: &MetadataWrapper, k: &in_toto::crypto::PrivateKey) -> Option<in_toto::Result<Metablock>> {
+    match meta.clone() {
+        MetadataWrapper::Link(l) => Some(in_toto::models::LinkMetadataBuilder::new().name(l.name).materials(l.materials).products(l.products).env(l.env).byproducts(l.byproducts).command(l.command).signed::<Json>(k)),
+        _ => None,
+    }
+}
 pub const OUTPUTS: [&str; 4] = ["to_string", "to_string_pretty", "Json::to_writer", "JsonPretty::to_writer"];
 pub const KEY_KINDS: [&str; 6] = ["ed1", "ec1", "rsa256a", "rsa512a", "rsa256c", "rsa512c"];
 
@@ -28,6 +45,11 @@ fn construct(meta: &MetadataWrapper, signers: &[&Key], how: &str) -> Result<Meta
             "Metablock::new" => Metablock::new(meta.clone(), &ks),
             "builder" => Ok(MetablockBuilder::from_metadata(meta.clone().into_trait()).sign(&ks)?.build()),
             "from_raw_metadata(json)" => Ok(MetablockBuilder::from_raw_metadata(&serde_json::to_vec(meta)?)?.sign(&ks)?.build()),
+            "constructor" => Metablock::new(via_constructor(meta)?, &ks),
+            "LinkMetadataBuilder::signed" => match (ks.len(), via_signed(meta, ks[0])) {
+                (1, Some(r)) => r,
+                _ => Metablock::new(meta.clone(), &ks),
+            },
             _ => Ok(MetablockBuilder::from_raw_metadata(&meta.to_bytes()?)?.sign(&ks)?.build()),
         }
     });
@@ -267,6 +289,42 @@ fn ecdsa_length_classes(acc: &mut Acc, meta: &MetadataWrapper) -> serde_json::Ma
     info
 }
 
+/// RSA-PSS signatures are randomized too; the class that differs in handling is a signature whose
+/// big-endian value starts with a zero byte (1 in 256). Searched like the ECDSA length classes:
+/// sign until one is seen (cap on attempts), then take it through the round trip.
+fn rsa_leading_zero_class(acc: &mut Acc, meta: &MetadataWrapper) -> serde_json::Map<String, Value> {
+    let mut info = serde_json::Map::new();
+    for kname in ["rsa256a", "rsa512a"] {
+        let k = keys::get(kname);
+        let mut attempts = 0u64;
+        let mut found: Option<Metablock> = None;
+        while attempts < 6000 && found.is_none() {
+            attempts += 1;
+            let mb = world::sign(meta.clone(), &[k]);
+            let sig = serde_json::to_value(&mb.signatures[0]).unwrap()["sig"].as_str().unwrap().to_string();
+            if sig.starts_with("00") {
+                found = Some(mb);
+            }
+        }
+        info.insert(format!("{kname}_attempts"), json!(attempts));
+        info.insert(format!("{kname}_leading_zero_signature_seen"), json!(found.is_some()));
+        if let Some(mb) = found {
+            for out in ["to_string", "to_string_pretty", "Json::to_writer"] {
+                acc.evaluations += 1;
+                acc.nontrivial += 1;
+                let ok = write_out(&mb, out).ok().and_then(|b| serde_json::from_slice::<Metablock>(&b).ok()).map(|p| matches!(guard(|| p.verify(1, [k.public()])), Guard::Done(Ok(_)))).unwrap_or(false);
+                if ok {
+                    acc.outcome("verifies-after-roundtrip");
+                } else {
+                    acc.violation("rejected-after-roundtrip:rsa:signature-with-leading-zero-byte", "an RSA-PSS signature whose value starts with a zero byte does not verify after a round trip", || json!({"kind": "rsa-leading-zero", "key": kname, "block": world::block_value(&mb)}));
+                }
+            }
+        }
+    }
+    info.insert("sampled".into(), json!(true));
+    info
+}
+
 pub fn run(tier: Tier) -> i32 {
     let mut c = Check::new("C09", "exploration", tier);
     let mut acc = Acc::new();
@@ -308,8 +366,11 @@ pub fn run(tier: Tier) -> i32 {
     let ed = keys::get("ed1");
     let accs = util::par_fold(&docs, Acc::new, |acc, i, (d, meta)| {
         acc.nontrivial += 1;
-        for how in ["Metablock::new", "builder"] {
-            roundtrip_case(acc, d, meta, &[ed], how, &OUTPUTS);
+        for how in ["Metablock::new", "builder", "constructor", "LinkMetadataBuilder::signed"] {
+            if how == "LinkMetadataBuilder::signed" && !matches!(meta, MetadataWrapper::Link(_)) {
+                continue;
+            }
+            roundtrip_case(acc, d, meta, &[ed], how, if how == "constructor" || how == "LinkMetadataBuilder::signed" { &OUTPUTS[..2] } else { &OUTPUTS });
         }
         if i % 500 == 3 {
             acc.sample(|| json!({"kind": "roundtrip", "value": d, "signers": ["ed1"], "constructions": ["Metablock::new", "builder"], "outputs": OUTPUTS}));
@@ -343,8 +404,48 @@ pub fn run(tier: Tier) -> i32 {
     if tier.thorough() {
         negatives(&mut acc, &four[3].1, true);
     }
+    // (5) links produced by in_toto_run itself (record, run, sign), every key kind
+    {
+        let dir = util::fresh_dir("c09run");
+        std::fs::write(dir.join("a.txt"), b"a").unwrap();
+        std::fs::create_dir_all(dir.join("d")).unwrap();
+        std::fs::write(dir.join("d/b\u{e9}.txt"), b"b").unwrap();
+        let ds = dir.to_str().unwrap().to_string();
+        for kname in KEY_KINDS {
+            let k = keys::get(kname);
+            for (label, cmd) in [("plain", vec!["sh", "-c", "printf 'out\\n\"q\"'; printf 'err\\t' >&2"]), ("no-command", vec![]), ("non-zero", vec!["sh", "-c", "exit 3"])] {
+                acc.evaluations += 1;
+                acc.nontrivial += 1;
+                let w = || json!({"kind": "in_toto_run", "key": kname, "command": label});
+                let r = guard(|| in_toto::runlib::in_toto_run("st\u{e9}p", Some(&ds), &[&ds], &[&ds], &cmd, Some(&k.private), None, Some(&[&ds])));
+                let mb = match r {
+                    Guard::Done(Ok(mb)) => mb,
+                    Guard::Done(Err(e)) => {
+                        acc.note(&format!("in_toto_run-error:{label}:{}", util::normalize_loc(&format!("{e:?}")).chars().take(40).collect::<String>()));
+                        continue;
+                    }
+                    Guard::Panicked(l, m) => {
+                        acc.violation(&format!("panic:{l}"), &format!("in_toto_run panicked: {m}"), w);
+                        continue;
+                    }
+                };
+                for out in ["to_string", "to_string_pretty"] {
+                    let ok = write_out(&mb, out).ok().and_then(|b| serde_json::from_slice::<Metablock>(&b).ok()).map(|p| matches!(guard(|| p.verify(1, [k.public()])), Guard::Done(Ok(_)))).unwrap_or(false);
+                    if ok {
+                        acc.outcome("verifies-after-roundtrip");
+                        acc.accepting += 1;
+                    } else {
+                        acc.violation(&format!("rejected-after-roundtrip:in_toto_run:{}", k.kind), "a link signed by in_toto_run does not verify after writing it and reading it back", w);
+                    }
+                }
+            }
+        }
+        let _ = std::fs::remove_dir_all(&dir);
+    }
     let ecdsa_info = ecdsa_length_classes(&mut acc, &four[0].1);
     c.extra.insert("ecdsa_signature_length_classes".into(), Value::Object(ecdsa_info));
+    let rsa_info = rsa_leading_zero_class(&mut acc, &four[0].1);
+    c.extra.insert("rsa_signature_leading_zero_class".into(), Value::Object(rsa_info));
     // observation (not judged): repeated sign() calls on the builder
     {
         let b = MetablockBuilder::from_metadata(four[0].1.clone().into_trait()).sign(&[&keys::get("ed1").private]).unwrap().sign(&[&keys::get("ed2").private]).unwrap().build();
@@ -352,13 +453,13 @@ pub fn run(tier: Tier) -> i32 {
     }
     c.acc = acc;
     c.rule = format!(
-        "(1) {} documents (every string field of link and layout x wide strings <= {} over 17 characters incl. controls/non-BMP and critical strings <= 2) signed with Ed25519 via Metablock::new and the builder, written 4 ways, read back, verified; (2) every {}th document with each of the 5 other key kinds; (3) all 40 ordered signer sequences of length 1..3 over 4 key types x 4 constructions x 4 outputs x 4 documents; (4) per key kind: every other key of the type, every scheme re-declaration, every single bit of the signature. distinct_nontrivial = documents x signer settings + negative cases",
+        "(1) {} documents (every string field of link and layout x wide strings <= {} over 17 characters incl. controls/non-BMP and critical strings <= 2) signed with Ed25519 via Metablock::new, the builder, the plain constructors and (links) LinkMetadataBuilder::signed, written 4 (2) ways, read back, verified; (2) every {}th document with each of the 5 other key kinds; (3) all 40 ordered signer sequences of length 1..3 over 4 key types x 6 constructions x 4 outputs x 4 documents; (5) in_toto_run on a two-file tree x 6 key kinds x 3 commands; (4) per key kind: every other key of the type, every scheme re-declaration, every single bit of the signature. distinct_nontrivial = documents x signer settings + negative cases",
         docs.len(),
         if tier.thorough() { 2 } else { 1 },
         if tier.thorough() { 3 } else { 11 }
     );
-    c.bound_completed = "complete within the stated alphabets".into();
-    c.assume("signers are distinct keys; expiry years within 0001..9999; byproduct member names outside the reserved names (those are C16's)");
+    c.bound_completed = "complete within the stated alphabets; two dimensions are searched, not enumerated (signing randomness: ECDSA DER length classes, RSA-PSS values with a leading zero byte)".into();
+    c.assume("signers are distinct keys, i.e. distinct key material (one key loaded under two schemes or hash-algorithm lists is one signer); expiry years within 0001..9999; byproduct member names outside the reserved names (those are C16's)");
     c.assume("ring is a trusted black box");
     c.assume("one searched (not enumerated) dimension: the DER length classes of randomized ECDSA signatures, reported under ecdsa_signature_length_classes");
     c.finish()
@@ -376,7 +477,14 @@ pub fn replay(case: &Value) -> Value {
             let how = CONSTRUCTIONS.iter().copied().find(|c| Some(*c) == case["construction"].as_str()).unwrap_or("Metablock::new");
             roundtrip_case(&mut acc, "replay", &meta, &signers, how, &OUTPUTS);
         }
+        Some("in_toto_run") => return json!({"note": "re-run ./check C09 quick: the case needs the scratch tree", "violation": null}),
         Some("negative") => negatives(&mut acc, &c11::link_with("stdout", "a\nb\"c\\d\te"), true),
+        Some("rsa-leading-zero") => {
+            if let Ok(mb) = world::block_from_value(&case["block"]) {
+                let ok = mb.verify(1, [keys::get(case["key"].as_str().unwrap_or("rsa256a")).public()]).is_ok();
+                return json!({"verifies": ok, "violation": if ok { Value::Null } else { json!("rejected-after-roundtrip:rsa:signature-with-leading-zero-byte") }});
+            }
+        }
         Some("ecdsa-length") => {
             if let Ok(mb) = world::block_from_value(&case["block"]) {
                 let ok = mb.verify(1, [keys::get("ec1").public()]).is_ok();
